@@ -21,11 +21,18 @@ class _Return(Exception):
         self.v = v
 
 
+class _Break(Exception):
+    pass
+
+
 class MiniEval:
-    def __init__(self, consts=None, skip_calls=(), resolver=None):
+    MAX_ITER = 100000
+
+    def __init__(self, consts=None, skip_calls=(), resolver=None, call_hook=None):
         self.consts = dict(consts or {})
         self.skip = tuple(skip_calls)
         self.resolver = resolver  # callable(ast.Name) -> constant or raises AnalysisError
+        self.call_hook = call_hook  # callable(call node, evaluated positional args) -> value, or None when not handled
 
     def run(self, fnode, args):
         """args: {param: value}; returns (return value, {self attr: value})"""
@@ -71,6 +78,46 @@ class MiniEval:
             else:
                 self._block(s.orelse, env)
             return
+        if isinstance(s, ast.AugAssign) and isinstance(s.target, ast.Name):
+            cur = env.get(s.target.id)
+            v = self._ev(s.value, env)
+            ops = {ast.Add: lambda: cur + v, ast.Sub: lambda: cur - v, ast.Mult: lambda: cur * v, ast.FloorDiv: lambda: cur // v, ast.Mod: lambda: cur % v}
+            if type(s.op) not in ops or cur is _OPAQUE or cur is None:
+                raise AnalysisError(f"minieval: `{norm(s)[:60]}` outside the fragment")
+            env[s.target.id] = ops[type(s.op)]()
+            return
+        if isinstance(s, ast.For) and isinstance(s.target, ast.Name) and isinstance(s.iter, ast.Call) and dotted(s.iter.func) in ("range", "itertools.count") and not s.orelse:
+            a = [self._ev(x, env) for x in s.iter.args]
+            it = range(*a) if dotted(s.iter.func) == "range" else None
+            i, n = (a[0] if a else 0), 0
+            while True:
+                if it is not None:
+                    if n >= len(it):
+                        break
+                    env[s.target.id] = it[n]
+                else:
+                    env[s.target.id] = i + n * (a[1] if len(a) > 1 else 1)
+                n += 1
+                if n > self.MAX_ITER:
+                    raise AnalysisError("minieval: loop does not terminate within the iteration bound")
+                try:
+                    self._block(s.body, env)
+                except _Break:
+                    break
+            return
+        if isinstance(s, ast.While) and not s.orelse:
+            n = 0
+            while self._truth(self._ev(s.test, env)):
+                n += 1
+                if n > self.MAX_ITER:
+                    raise AnalysisError("minieval: loop does not terminate within the iteration bound")
+                try:
+                    self._block(s.body, env)
+                except _Break:
+                    break
+            return
+        if isinstance(s, ast.Break):
+            raise _Break()
         if isinstance(s, ast.Raise):
             raise Raised(norm(s)[:80])
         if isinstance(s, ast.Return):
@@ -135,6 +182,10 @@ class MiniEval:
                     return False
                 left = right
             return True
+        if isinstance(e, ast.Call) and self.call_hook is not None:
+            hv = self.call_hook(e, [self._ev(x, env) for x in e.args] if not e.keywords else None)
+            if hv is not None:
+                return hv
         if isinstance(e, ast.Call):
             d = dotted(e.func)
             if d in ("ord", "chr", "int", "len", "str", "abs", "bool") and len(e.args) == 1 and not e.keywords:
